@@ -160,6 +160,10 @@ def run(ctx):
                 a = rng.normal(200, 400, size=(N, 3)) if rng.random() < 0.6 else np.abs(rng.normal(200, 400, size=(N, 3))) + 1
                 ch = 1
                 if rng.random() < 0.3:
+                    # the most negative event is tiny (|r| < T*10^-M): the documented W is clamped at 0, never negative
+                    a = np.abs(a) + 1
+                    a[int(rng.integers(N)), ch] = -float(10 ** rng.uniform(-7, 0.5))
+                if rng.random() < 0.3:
                     datas.append(a[:, ch].copy())
                     one_d = True
                 else:
